@@ -88,7 +88,9 @@ def run_ftp_job(job):
     code = zoo._code(job['code'])
     cap = _Capture()
     lg = logging.getLogger('qecsim')
-    lg.setLevel(logging.WARNING)
+    # logging configuration is part of the run configuration: most jobs at WARNING (the codespace warning is captured),
+    # some at DEBUG (every guarded debug statement executes) and some at ERROR (warnings disabled)
+    lg.setLevel({'DEBUG': logging.DEBUG, 'ERROR': logging.ERROR}.get(job.get('loglevel'), logging.WARNING))
     lg.propagate = False
     lg.addHandler(cap)
     trec = {}
@@ -171,7 +173,7 @@ def run(ctx):
                 'square/non-square/minimal; T in 1..%d; p in %r x q in %r (every corner: p=0 with q>0, q=0, q=1, q '
                 'defaulted); eta given or derived from the context model (infinite bias => the model generates Y-only '
                 'errors); scripted flip sequences (single flip at t=T-1, the same flip at every t, flips at t=0 and '
-                't=T-1); one decoder object reused over histories of 2-4 runs with different context models (bias re-derived each time). nontrivial = T >= 2 with at least one flip and one non-zero syndrome row' % (Tmax, PS, QS))
+                't=T-1); one decoder object reused over histories of 2-4 runs with different context models (bias re-derived each time); logging level of the qecsim loggers DEBUG / WARNING / ERROR per job. nontrivial = T >= 2 with at least one flip and one non-zero syndrome row' % (Tmax, PS, QS))
     ctx.props_obligations()
     jobs, meta = [], {}
     codes = {}
@@ -281,6 +283,10 @@ def run(ctx):
                 ctx.cmp('%s._distance: invariant under a time shift modulo T' % D.__name__,
                         {'code': zoo.code_name(cs), 'T': T, 'a': [at, ax, ay], 'b': [bt, bx, by], 'is_row': is_row}, d1, d0)
                 ctx.count(None, False, 'distance-periodicity')
+    for job in jobs:
+        r_ = rng.random()
+        job['loglevel'] = 'DEBUG' if r_ < 0.25 else ('ERROR' if r_ < 0.4 else 'WARNING')
+        ctx.hist['loglevel=' + job['loglevel']] += 1
     results = zoo.run_pool(run_ftp_job, jobs)
 
     # ---- model requests ------------------------------------------------------------------------------
@@ -324,6 +330,7 @@ def run(ctx):
         T = run_['T']
         kind = meta[job['id']]
         rep = {'code': [cs[0], list(cs[1])], 'decoder': [ds[0], list(ds[1])], 'T': T, 'p': run_['p'], 'q': run_['q'],
+               'loglevel': job.get('loglevel'),
                'error_model': list(run_['em']) if 'em' in run_ else 'scripted', 'seed': run_.get('seed'),
                'scripted': run_.get('scripted'), 'step_errors': [zoo.bsf_to_letters([int(c) for c in e]) for e in r.get('step_errors', [])],
                'step_flips': r.get('step_flips'), 'rows': r.get('rows'), 'outcome': r['outcome'],
@@ -434,9 +441,9 @@ def replay(path):
     zoo._init_worker()
     if r.get('history'):
         runs = [dict(x, em=(x['em'][0], tuple(tuple(y) if isinstance(y, list) else y for y in x['em'][1]))) for x in r['history']['runs']]
-        res = run_ftp_job({'id': 0, 'code': cs, 'decoder': ds, 'share_decoder': True, 'runs': runs})['results'][-1]
+        res = run_ftp_job({'id': 0, 'code': cs, 'decoder': ds, 'share_decoder': True, 'runs': runs, 'loglevel': r.get('loglevel')})['results'][-1]
     else:
-        res = run_ftp_job({'id': 0, 'code': cs, 'decoder': ds, 'runs': [run_]})['results'][0]
+        res = run_ftp_job({'id': 0, 'code': cs, 'decoder': ds, 'runs': [run_], 'loglevel': r.get('loglevel')})['results'][0]
     print('outcome now:', {k: res.get(k) for k in ('outcome', 'rows', 'recovery', 'dr_success', 'dr_cv', 'warnings')})
     code = zoo.make_code(cs)
     bad = 1
